@@ -285,7 +285,7 @@ fn run_scn(scn: &Scn, seed: u64, prop: &str, extra: &mut Extra) -> Result<(u64, 
             let mut b = Server::build().workers(workers).max_concurrent_connections(limit).shutdown_timeout(1).disable_signals();
             for (i, l) in lst.into_iter().enumerate() {
                 let f = Fac { listener: i as u64, obs: obs2.clone() };
-                b = b.listen(format!("l{i}"), l, move || f.clone()).unwrap();
+                b = b.listen(["web", "admin", "zeta"].get(i).map(|s| s.to_string()).unwrap_or_else(|| format!("l{i}")), l, move || f.clone()).unwrap();
             }
             let srv = b.run();
             let _ = htx.send(srv.handle());
